@@ -1,5 +1,8 @@
 use cvx::report::Tier;
 
+#[global_allocator]
+static ALLOC: cvx::mem::Counting = cvx::mem::Counting;
+
 fn main() {
     // anyhow captures a backtrace per error when RUST_BACKTRACE is set (global lock, very slow)
     std::env::set_var("RUST_LIB_BACKTRACE", "0");
@@ -29,6 +32,7 @@ fn main() {
         i += 1;
     }
     cvx::choicesat::install_quiet_panic_hook();
+    cvx::mem::init(&args[1], tier);
     // wall-clock budget: explorations stop (flagged as capped) once it is used up
     cvx::choicesat::set_deadline_in(std::env::var("CVX_BUDGET_S").ok().and_then(|x| x.parse().ok()).unwrap_or(if tier == Tier::Thorough { 3 * 3600 } else { 15 * 60 }));
     if args[1] == "c16-scenario" {
